@@ -20,13 +20,18 @@ from vf.xh import I, B, Reject, pick
 class _Lax:
   @staticmethod
   def cond(pred, t, f, *ops, **kw):
-    return t(*ops) if pred else f(*ops)
+    # like lax.cond under tracing: BOTH branch functions are executed (traced),
+    # the selected result is returned
+    rt = t(*ops)
+    rf = f(*ops)
+    return rt if pred else rf
 
   @staticmethod
   def switch(index, branches, *ops):
     n = len(branches)
-    i = 0 if index < 0 else (n - 1 if index >= n else index)
-    return branches[i](*ops)
+    i = 0 if index < 0 else (n - 1 if index >= n else index)   # lax clamps
+    results = [b(*ops) for b in branches]                      # all are traced
+    return results[i]
 
   @staticmethod
   def while_loop(c, b, init):
